@@ -335,6 +335,15 @@ def make_root(path: str, token: str) -> None:
     os.makedirs(os.path.join(path, "sub"), exist_ok=True)
     with open(os.path.join(path, "sub", "beta.txt"), "w") as fp:
         fp.write("beta %s\n" % token)
+    # the document root of a public server can hold anything, e.g. an account database of its own in which
+    # the configured names mean root: names are resolved against the system's, before the root changes
+    os.makedirs(os.path.join(path, "etc"), exist_ok=True)
+    with open(os.path.join(path, "etc", "passwd"), "w") as fp:
+        fp.write("root:x:0:0:root:/:/bin/sh\n%s:x:0:0:not the real one:/:/bin/sh\n" % USER)
+    with open(os.path.join(path, "etc", "group"), "w") as fp:
+        fp.write("root:x:0:\n%s:x:0:\n" % GROUP)
+    with open(os.path.join(path, "etc", "nsswitch.conf"), "w") as fp:
+        fp.write("passwd: files\ngroup: files\n")
     for dp, dn, fn in os.walk(path):
         os.chmod(dp, 0o755)
         for f in fn:
